@@ -122,6 +122,7 @@ type faultOutcome struct {
 	srcFailed bool
 	complete  bool
 	desc      string
+	panicked  string
 }
 
 // runFault executes one fault placement. Choice points (in order): pre-send
@@ -252,6 +253,12 @@ func runFault(fc FaultCase, c *choice.Chooser) faultOutcome {
 	done := make(chan struct{})
 	go func() {
 		defer close(done)
+		defer func() {
+			if e := recover(); e != nil {
+				out.err = fmt.Errorf("PANIC in Submit: %v", e)
+				out.panicked = fmt.Sprint(e)
+			}
+		}()
 		_, out.err = rt.Submit(op)
 	}()
 	select {
@@ -363,6 +370,9 @@ func judgeFault(fc FaultCase, o faultOutcome) (string, string) {
 	sfx := ""
 	if o.pre == 2 || o.pre == 3 {
 		sfx = "/request-build-error-after-writer-started"
+	}
+	if o.panicked != "" {
+		return "panic", fmt.Sprintf("Submit panics (%s): %s", o.desc, o.panicked)
 	}
 	if !o.returned {
 		return "call-never-returns", fmt.Sprintf("Submit still running after the 30 s horizon (%s)", o.desc)
@@ -495,6 +505,12 @@ func faultSweep(r *report.R) {
 			var ob, eb bytes.Buffer
 			cmd.Stdout, cmd.Stderr = &ob, &eb
 			if err := cmd.Run(); err != nil {
+				if txt := eb.String(); strings.Contains(txt, "panic: ") && strings.Contains(txt, "go-openapi/runtime/client.") {
+					// a goroutine of the client itself panicked: nothing in the process can recover that
+					results[i].Fails = append(results[i].Fails, report.Failure{Class: "panic/in-a-goroutine-of-the-client",
+						What: firstLines(txt[strings.Index(txt, "panic: "):], 14), Case: map[string]any{"kind": "fault", "note": "the worker process died; the placement is the one it was executing"}})
+					return
+				}
 				errs[i] = fmt.Errorf("fault worker %d: %v\n%s", i, err, eb.String())
 				return
 			}
